@@ -488,6 +488,51 @@ fn main() {
                     Err(_) => out.push(json!({"status":"panic"})),
                 }
             }
+            "step_iter" => {
+                // forward walk of a real execution through VmStateIterator, then for every t the history
+                // "next up to t, k times back, 3 times next": every re-reported state must equal the forward
+                // state carrying the same clk (ctx, fmp, stack, memory)
+                let src = job["source"].as_str().unwrap().to_string();
+                let r = panic::catch_unwind(panic::AssertUnwindSafe(|| -> Value {
+                    let program = match Assembler::default().compile(&src) {
+                        Ok(p) => p,
+                        Err(e) => return json!({"status":"assembly_error","error": format!("{e:?}")}),
+                    };
+                    let snap = |s: &miden_processor::VmState| -> String { format!("{:?}|{:?}|{:?}|{:?}", s.ctx, s.fmp, s.stack, s.memory) };
+                    let fresh = || miden_processor::execute_iter(&program, StackInputs::default(), DefaultHost::default());
+                    let mut fwd: Vec<String> = vec![];
+                    for st in fresh() {
+                        match st {
+                            Ok(s) => { assert_eq!(s.clk as usize, fwd.len()); fwd.push(snap(&s)); }
+                            Err(e) => return json!({"status":"exec_error","error": format!("{e:?}")}),
+                        }
+                    }
+                    let mut mismatches: Vec<String> = vec![];
+                    let mut panics: Vec<String> = vec![];
+                    for t in 0..fwd.len() {
+                        for k in 1..=2usize {
+                            let mut it = fresh();
+                            let mut hist = String::new();
+                            let mut check = |s: &miden_processor::VmState, hist: &str| {
+                                if (s.clk as usize) < fwd.len() && snap(s) != fwd[s.clk as usize] && mismatches.len() < 6 {
+                                    mismatches.push(format!("history [{hist}] reports clk={} as {} but the forward walk has {}", s.clk, snap(s), fwd[s.clk as usize]));
+                                }
+                            };
+                            let walked = panic::catch_unwind(panic::AssertUnwindSafe(|| {
+                                for _ in 0..=t { if let Some(Ok(s)) = it.next() { hist.push_str(&format!("n{} ", s.clk)); check(&s, &hist); } }
+                                for _ in 0..k { hist.push_str("b"); if let Some(s) = it.back() { hist.push_str(&format!("{} ", s.clk)); check(&s, &hist); } }
+                                for _ in 0..3 { hist.push_str("n"); if let Some(Ok(s)) = it.next() { hist.push_str(&format!("{} ", s.clk)); check(&s, &hist); } }
+                            }));
+                            if walked.is_err() { panics.push(format!("history [{hist}] panics")); }
+                        }
+                    }
+                    json!({"status":"ok","rows": fwd.len(), "mismatches": mismatches, "panics": panics.iter().take(6).collect::<Vec<_>>(), "n_panics": panics.len()})
+                }));
+                match r {
+                    Ok(v) => out.push(v),
+                    Err(_) => out.push(json!({"status":"panic"})),
+                }
+            }
             "mem_seq" => {
                 // a sequence of accesses applied to the memory of a real Process (Chiplets API used by
                 // the memory operations): every word returned, and the final number of trace rows
